@@ -3492,14 +3492,23 @@ impl ContinuityStore {
         const MAX_TAIL_EVENTS: usize = 512;
         const MAX_TAIL_BYTES: usize = 512 * 1024;
 
-        let tail = self
-            .stream_cache
-            .scan_tail(continuity_id, MAX_TAIL_EVENTS, MAX_TAIL_BYTES)
-            .ok()
-            .flatten()?;
+        let tail_events = match self.stream_cache.scan_tail(
+            continuity_id,
+            MAX_TAIL_EVENTS,
+            MAX_TAIL_BYTES,
+        ) {
+            Ok(Some(tail)) => tail.events,
+            // No usable sidecar: look at the same tail of the thread as the truth log has it
+            // (this also rebuilds the sidecar), so the answer does not depend on the cache state.
+            Ok(None) | Err(_) => {
+                let mut events = self.replay_events(continuity_id).ok()?;
+                let keep_from = events.len().saturating_sub(MAX_TAIL_EVENTS);
+                events.split_off(keep_from)
+            }
+        };
 
         let mut ended: std::collections::HashSet<String> = std::collections::HashSet::new();
-        for event in tail.events.iter().rev() {
+        for event in tail_events.iter().rev() {
             match &event.kind {
                 EventKind::ContinuityJobEnded {
                     job_id, job_kind, ..
